@@ -10,6 +10,36 @@ class References:
     self._check_ref_not_self(ref)
     return ref
 
+  def _new_item_line(self, ref, key):
+    """
+    The line for a new item of a connected group (given as identifier or
+    as line), with its back-reference to the group; everything is
+    checked before anything is changed.
+    """
+    if isinstance(ref, str):
+      found = self._gfa.line(ref)
+      if found is not None and not isinstance(found, gfapy.line.Unknown):
+        self._check_new_item(found)
+      # (an identifier which is not defined yet gets a placeholder)
+      return self._line_for_ref_symbol(ref)
+    self._check_new_item(ref)
+    ref._add_reference(self, key)
+    return ref
+
+  def _check_new_item(self, line):
+    self._check_ref_class(line)
+    if line.gfa is not self._gfa:
+      raise gfapy.ArgumentError(
+        "Line: {}\n".format(self)+
+        "Item: {}\n".format(repr(line))+
+        "The item added to the group must be connected\n"+
+        "to the same GFA object as the group")
+    if line is self:
+      raise gfapy.RuntimeError(
+        "Line: {}\n".format(self)+
+        "Item is the line itself\n"+
+        "A group is not allowed to refer to itself")
+
   def _check_ref_class(self, item):
     if item.__class__ not in [
          gfapy.line.edge.GFA2,
